@@ -21,15 +21,13 @@
     The order theorems are safety statements about EVERY run of the model — every scheduler
     (fair or not), every fuel, whether the run returns ([Done r]), gets stuck because the idle
     handler fulfils nothing ([Stuck s]) or exhausts its fuel ([OutOfFuel s]): [log_of] is the log
-    of the run so far.  They do not claim that a run returns.
-    NOT PROVED (liveness, stage B):
-      Theorem C11_mutation_terminates : forall sigma fuel root,
-        fair sigma -> count_async root <= fuel -> exists r, run (Some sigma) Mutation fuel root = Done r.
-    Every generated case of the correspondence check is required to reach [Done] (a [Stuck] or
-    [OutOfFuel] answer of the model is reported as a mismatch), and Examples/C11.v shows instances. *)
+    of the run so far.  Liveness is separate: [C11_mutation_terminates] — under a FAIR idle handler
+    (one that fulfils at least one outstanding promise per call, the obligation the documentation
+    of ResolvePromise states) and with fuel for one idle round per promise of the plan
+    ([count_async root]) the run returns. *)
 From Coq Require Import List NArith.
 From ApiFu Require Import Base.Sexp Serial.SerialPlan Serial.SerialFuture Serial.SerialModel
-     Serial.SerialSpec Serial.SerialProofs.
+     Serial.SerialSpec Serial.SerialProofs Serial.SerialTerm.
 Import ListNotations.
 
 (** the property, strict form: for every mutation, every assignment of synchronous / asynchronous
@@ -80,6 +78,35 @@ Theorem C11_mutation_serial_with_drain : forall sigma fuel root,
             Forall (fun pr => p_st pr = PRecv) (r_proms r).
 Proof. exact mutation_serial_with_drain. Qed.
 
+(** liveness: a fair idle handler and fuel for one idle round per promise make the mutation
+    return — no wait loop gets stuck or runs out of fuel; for the code that exists
+    ([drain = false], [run = run_gen false]) and for the proposed drain variant *)
+Theorem C11_mutation_terminates : forall sigma, fair sigma -> forall drain fuel root,
+  count_async root <= fuel ->
+  exists r, run_gen drain (Some sigma) Mutation fuel root = Done r.
+Proof. exact mutation_terminates. Qed.
+
+(** a request without idle handler always returns (wait answers "No idle handler defined." as soon
+    as a future is not ready) *)
+Theorem C11_mutation_terminates_no_handler : forall drain fuel root,
+  exists r, run_gen drain None Mutation fuel root = Done r.
+Proof. exact mutation_terminates_no_handler. Qed.
+
+(** the same for queries (the non-serial path beneath every root field) *)
+Theorem C11_query_terminates : forall sigma, fair sigma -> forall fuel root,
+  count_async root <= fuel ->
+  exists r, run (Some sigma) Query fuel root = Done r.
+Proof. exact query_terminates. Qed.
+
+(** the property as one total-correctness statement *)
+Theorem C11_mutation_serial_total : forall sigma fuel root,
+  fair sigma -> count_async root <= fuel ->
+  NoDup (map fst root) -> excl_abandoned_promise root = false ->
+  exists r, run (Some sigma) Mutation fuel root = Done r /\
+            Serial (map fst root) (r_events r) /\
+            (r_null r = false -> KeysInOrder (map fst root) (slot_keys (r_root r))).
+Proof. exact mutation_serial_total. Qed.
+
 (** the strict form is false without the exclusion (known finding "abandoned-promise"):
     mutation { a { x y } b }, x: Int! a promise that fails, y and b promises; x is fulfilled first:
     a becomes null, b's resolver starts, and only then y's promise is fulfilled *)
@@ -114,6 +141,10 @@ Print Assumptions C11_mutation_observes_predecessors.
 Print Assumptions C11_mutation_serial_starts.
 Print Assumptions C11_mutation_serial_with_drain.
 Print Assumptions C11_mutation_key_order.
+Print Assumptions C11_mutation_terminates.
+Print Assumptions C11_mutation_terminates_no_handler.
+Print Assumptions C11_query_terminates.
+Print Assumptions C11_mutation_serial_total.
 Print Assumptions C11_mutation_serial_refuted_when_promise_abandoned.
 Print Assumptions C11_oracle_sound.
 Print Assumptions C11_oracle_complete.
